@@ -424,3 +424,9 @@ def starved(merged, tier):
 def precheck():
     from vlib.calibrate import calibrate
     return calibrate()
+
+
+def shard_env(i, n):
+    """one shard in four runs the daemon code with DEBUG set in its environment (circus then wraps its methods in
+    tracing decorators at import time: a different code path through every call)"""
+    return {'DEBUG': '1'} if i % 4 == 3 else None
